@@ -109,3 +109,70 @@ Section P.
   Definition scalar_ok (d : T) : bool :=
     negb (is0 O K d) && ltb d (nsub O (km Kn) (k1 K)).
 End P.
+
+(* ---------------- scalar generation and hashing to a point ---------------- *)
+Section Gen.
+  Variable O : numops.
+  Variable ltb : T O -> T O -> bool.
+  Variable K : mconsts O.
+  Notation T := (T O).
+
+  (* sm2_z256_rand_range(r, range): [draws] = what successive rand_bytes((uint8_t * )r, 32) calls
+     deliver, already read as the number r (memory is little-endian: r = sum byte_j 256^j);
+     None = the entropy source fails.  At most 100 draws.  Returns (ret, r afterwards). *)
+  Fixpoint rand_range_loop (tries : nat) (range : T) (draws : list (option T)) (r : T)
+    : Z * T * list (option T) :=
+    match tries with
+    | Datatypes.O => (0, r, draws)                       (* if (!tries) return 0 *)
+    | S t =>
+      match draws with
+      | [] => (-1, r, [])                                (* script exhausted: treated as failure *)
+      | None :: rest => (-1, r, rest)
+      | Some v :: rest =>
+        if negb (ltb v range) then rand_range_loop t range rest v   (* cmp(r, range) >= 0: again *)
+        else (1, v, rest)
+      end
+    end.
+  Definition rand_range (range : T) (draws : list (option T)) (r0 : T) : Z * T * list (option T) :=
+    rand_range_loop 100 range draws r0.
+
+  (* sm2_key_generate: do { if (rand_range(d, n-1) != 1) return -1; } while (is_zero(d));
+     [fuel] bounds the number of outer iterations the model follows *)
+  Fixpoint key_generate_loop (fuel : nat) (nm1 : T) (draws : list (option T)) (d0 : T) : Z * T :=
+    match fuel with
+    | Datatypes.O => (-1, d0)
+    | S f =>
+      let '(ret, d, rest) := rand_range nm1 draws d0 in
+      if negb (ret =? 1) then (-1, d)
+      else if is0 O K d then key_generate_loop f nm1 rest d
+      else (1, d)
+    end.
+End Gen.
+
+(* little-endian value of a byte string (how rand_bytes((uint8_t * )r, 32) fills the limbs) *)
+Fixpoint le_val (bs : list Z) : Z := match bs with [] => 0 | b :: r => b + 256 * le_val r end.
+Fixpoint be_val_acc (bs : list Z) (acc : Z) : Z := match bs with [] => acc | b :: r => be_val_acc r (acc * 256 + b) end.
+Definition be_val (bs : list Z) : Z := be_val_acc bs 0.
+
+Section Hash.
+  Variable O : numops.
+  Variable ltb : T O -> T O -> bool.
+  Variable K : mconsts O.
+  Variable hash : list Z -> list Z.          (* SM3 on byte lists *)
+  Notation T := (T O).
+  (* sm2_z256_point_from_hash: x = sm3(data) (minus p once if >= p); try from_x_bytes; on "no such
+     point" continue with data := digest.  None = fuel exhausted. *)
+  Fixpoint point_from_hash (fuel : nat) (Pin : jpoint T) (data : list Z) (y_is_odd : bool)
+    : option (Z * jpoint T) :=
+    match fuel with
+    | Datatypes.O => None
+    | S f =>
+      let dgst := hash data in
+      let x0 := nofZ O (be_val dgst) in
+      let x := if negb (ltb x0 (km K)) then fst (vsub O ltb K x0 (km K)) else x0 in
+      let '(ret, P) := point_from_x_bytes O ltb K Pin x y_is_odd in
+      if ret =? 1 then Some (1, P)
+      else if ret <? 0 then Some (-1, P)
+      else point_from_hash f P dgst y_is_odd
+    end.
+End Hash.
